@@ -24,7 +24,10 @@ DItemC == {[k |-> "none"]} \cup {Grp(k, o[1], o[2], <<El("c", "string", 1, 1), E
                                    k \in {"seq", "choice"}, o \in DOccs, m \in {0, 1}} \cup
           {Grp(k, o[1], o[2], << Grp("seq", 1, 1, <<El("c", "string", 1, 1), El("d", "string", 1, 1)>>),
                                  Grp("seq", 1, 1, <<El("f", "string", 1, 1), El("g", "string", m, 1)>>) >>) :
-                                   k \in {"seq", "choice"}, o \in {<<1, 1>>, <<0, 1>>, <<1, U>>}, m \in {0, 1}}
+                                   k \in {"seq", "choice"}, o \in {<<1, 1>>, <<0, 1>>, <<1, U>>}, m \in {0, 1}} \cup
+          \* a third SINGLE element: with a choice root this is a three-way choice (a | b | c), which libxml2 hands over
+          \* as a nested binary tree OR(a, OR(b, c))
+          {El("c", tp, 1, 1) : tp \in {"string", "EMPTY"}}
 Slots == << {"seq", "choice"}, DOccs, DItemA, DItemB, DItemC, 1..8, {"model", "mixed", "any"}, 0..MaxDocIdx >>
 NSlots == Len(Slots)
 Init == parts = <<>>
@@ -50,7 +53,10 @@ Corpus == {
   <<"seq", <<1, 1>>, El("a", "string", 1, 1), El("b", "string", 0, 1), [k |-> "none"], 8, "model">>,
   \* a REPEATING choice nested directly in a choice that occurs once: (a | (b | e)* | ...)
   <<"choice", <<1, 1>>, El("a", "string", 1, 1), BGrp("choice", <<0, U>>, 1), [k |-> "none"], 1, "model">>,
-  <<"choice", <<0, 1>>, El("a", "string", 1, 1), BGrp("choice", <<1, U>>, 1), Seq2("choice", <<0, U>>, 1), 3, "model">> }
+  <<"choice", <<0, 1>>, El("a", "string", 1, 1), BGrp("choice", <<1, U>>, 1), Seq2("choice", <<0, U>>, 1), 3, "model">>,
+  <<"choice", <<0, U>>, El("a", "string", 1, 1), El("b", "string", 1, 1), El("c", "string", 1, 1), 1, "model">>,      \* (a | b | c)*
+  <<"choice", <<1, U>>, El("a", "EMPTY", 1, 1), El("b", "Kid", 1, 1), El("c", "string", 1, 1), 3, "model">>,          \* (a | b | c)+
+  <<"choice", <<1, 1>>, El("a", "string", 1, 1), El("b", "string", 1, 1), El("c", "EMPTY", 1, 1), 2, "model">> }
 InitCorpus == \E c \in Corpus, i \in 0..MaxDocIdx : parts = Append(c, i)
 
 Root == Grp(parts[1], parts[2][1], parts[2][2], <<parts[3], parts[4]>> \o (IF parts[5].k = "none" THEN <<>> ELSE <<parts[5]>>))
